@@ -13,7 +13,7 @@ META = {
  "harnesses": {
   "h_same_graph": {"kind": "G",
     "functions": ["Gfa.__init__", "Construction._init_field_value (eager/lazy parsing)", "FieldData.get (lazy decode)", "Writer.field_to_s", "Multiline.add/_merge", "Gfa.validate"],
-    "bounds": "6 valid documents (3 GFA1, 3 GFA2: every record type, all tag datatypes, repeated header tags) + 1..3 extra H lines repeating a custom tag (header multi-definition) x every pair of validation levels (k1,k2) in 0..3: same full observation and same written text; string and list entry points",
+    "bounds": "6 valid documents (3 GFA1, 3 GFA2: every record type, all tag datatypes, repeated header tags; 3 documents whose first line reveals the version) + 1..3 extra H lines repeating a custom tag (header multi-definition) x every pair of validation levels (k1,k2) in 0..3: same full observation and same written text; string and list entry points",
     "timeout": {"quick": 300, "thorough": 900}, "parts": {"quick": 16, "thorough": 16}},
   "h_monotone_field": {"kind": "L",
     "functions": ["Line.__init__", "Construction._init_field_value", "Field._parse_gfa_field", "<datatype>.decode / unsafe_decode", "Line.__str__"],
@@ -21,7 +21,7 @@ META = {
     "timeout": {"quick": 400, "thorough": 1500}, "parts": {"quick": 16, "thorough": 16}},
   "h_assignment": {"kind": "L",
     "functions": ["FieldData.set/_set_existing_field", "DynamicFields.__setattr__", "Writer.field_to_s", "Validate.validate_field/validate", "Field._validate_gfa_field"],
-    "bounds": "10 (line, field) targets (positional, predefined tag, custom tag of datatypes i, Z, A, f, sequence, position, orientation) x value in {0, 1, -1, 5, 10^12, a mixed list, every string of length <= 1 (quick) / 3 (thorough) over the 14-character alphabet} x level 0..3: invalid values are reported at the assignment at level 3, no later than field_to_s at level 2, by validate_field at every level; valid values are never rejected",
+    "bounds": "12 (line, field) targets (incl. the optional fields var of G and eid of E holding '*') (positional, predefined tag, custom tag of datatypes i, Z, A, f, sequence, position, orientation) x value in {0, 1, -1, 5, 10^12, a mixed list, every string of length <= 1 (quick) / 3 (thorough) over the 14-character alphabet} x level 0..3: invalid values are reported at the assignment at level 3, no later than field_to_s at level 2, by validate_field at every level; valid values are never rejected",
     "timeout": {"quick": 400, "thorough": 1500}, "parts": {"quick": 16, "thorough": 16}},
  },
 }
@@ -31,6 +31,10 @@ def _no_json(doc):
   # J tags are exercised by C20 (h_values) and C01 instead
   return ["\t".join(f for f in l.split("\t") if not (len(f) > 4 and f[2:5] == ":J:")) for l in doc]
 DOCS = [_no_json(d) for (d, vl) in ST1 + ST2]
+# documents whose first line is the one that reveals the version (no header)
+DOCS += [["E\te\ta+\tb-\t0\t1\t0\t1\t*", "G\tg\ta+\tb-\t5\t*", "S\ta\t5\t*", "S\tb\t5\t*"],
+         ["F\ta\tr+\t0\t1\t0\t1\t*", "U\tu\ta b", "S\ta\t5\t*", "S\tb\t5\t*"],
+         ["L\ta\t+\tb\t-\t*", "P\tp\ta+,b-\t*", "S\ta\t*", "S\tb\t*"]]
 ND = len(DOCS)
 
 def h_same_graph(di: int, k1: int, k2: int, extra: int, entry: bool) -> bool:
@@ -49,6 +53,8 @@ def h_same_graph(di: int, k1: int, k2: int, extra: int, entry: bool) -> bool:
   ta, tb = str(ga), str(gb)
   vp.reached("sg", di, a, b, extra)
   if ta != tb: return False
+  # the level of the Gfa is the level of every one of its lines, whatever their arrival order
+  if any(l.vlevel != a for l in ga.lines) or any(l.vlevel != b for l in gb.lines): return False
   with NoTracing():
     if diff_obs(observe(ga), observe(gb)): return False
   return "INVALID" not in ta
@@ -115,6 +121,7 @@ TARGETS = [
   ("S\ta\t*\txx:Z:q", "gfa1", "xx", "Z"), ("S\ta\t*\txx:A:q", "gfa1", "xx", "A"), ("L\ta\t+\tb\t-\t*", "gfa1", "from_orient", "orientation"),
   ("C\ta\t+\tb\t-\t1\t*", "gfa1", "pos", "position_gfa1"), ("E\te\ta+\tb-\t0\t1\t0\t1\t*", "gfa2", "beg1", "position_gfa2"),
   ("S\ta\t5\t*", "gfa2", "slen", "i"), ("G\tg\ta+\tb-\t5\t*", "gfa2", "disp", "i"),
+  ("G\tg\ta+\tb-\t5\t*", "gfa2", "var", "optional_integer"), ("E\t*\ta+\tb-\t0\t1\t0\t1\t*", "gfa2", "eid", "optional_identifier_gfa2"),
 ]
 NTG = len(TARGETS)
 SLEN = vp.T(1, 3)
@@ -127,12 +134,20 @@ def _valid(dt, v):
   if isinstance(v, int):
     if dt == "i": return True
     if dt in ("position_gfa1", "position_gfa2"): return v >= 0
+    if dt == "optional_integer": return True
     return False
   return False
 
 def _assign_check(ti, v, level):
   text, version, field, dt = TARGETS[ti]
   line = gfapy.Line(text, version=version, vlevel=level)
+  # the valid line itself is accepted by every read and validation, at every level
+  try:
+    line.validate()
+    for fn in line.positional_fieldnames + line.tagnames:
+      line.get(fn); line.validate_field(fn); line.field_to_s(fn)
+  except gfapy.Error:
+    return False
   ok = _valid(dt, v)
   try:
     line.set(field, v)
